@@ -1180,6 +1180,9 @@ class Ev:
                         and v.value.id not in self.env and isinstance(self.mod.consts.get(v.value.id), ast.Constant) \
                         and type(self.mod.consts[v.value.id].value) in (int, str):
                     out.append(str(self.mod.consts[v.value.id].value))
+                elif isinstance(v, ast.FormattedValue) and isinstance(v.value, ast.Constant) and type(v.value.value) in (int, str) \
+                        and v.conversion == -1 and v.format_spec is None:
+                    out.append(str(v.value.value))           # a constant already written in (sa/tablefold.py)
                 else:
                     return self.ev(spec_node)
             return P.atom(("str", "".join(out)))
